@@ -1,6 +1,7 @@
 /-
-M6 — storage life cycle of `adept::Array` (rank 1 and 2, passive and active) and `adept::SpecialMatrix`
-over reference-counted `adept::Storage`.
+M6 — storage life cycle of `adept::Array` (rank 1 and 2, passive and active) and `adept::SpecialMatrix` (symmetric,
+tridiagonal, diagonal; passive and active), including the CROSS-CLASS views (`Array::diag_matrix()`, `inactive_link()` /
+`value()`, `diag_vector` of special matrices), over reference-counted `adept::Storage`.
 
 Transcribed from
   include/adept/Storage.h   Storage(Index,bool) 71-84 (registers `n` gradients when active), ~Storage 90-102
@@ -65,17 +66,40 @@ inductive Kind
   | avec   -- Array<1,double,true>: its Storage registers gradients
   | symm   -- SpecialMatrix<int,SymmEngine<ROW_LOWER_COL_UPPER>,false>
   | tri    -- SpecialMatrix<int,BandEngine<ROW_MAJOR,1,1>,false>
+  | diag   -- SpecialMatrix<int,BandEngine<ROW_MAJOR,0,0>,false> (DiagMatrix): what `intVector::diag_matrix()` returns
+  | adiag  -- SpecialMatrix<double,BandEngine<ROW_MAJOR,0,0>,true>: what `aVector::diag_matrix()` returns
+  | asymm  -- SpecialMatrix<double,SymmEngine<ROW_LOWER_COL_UPPER>,true>: an ACTIVE special matrix
+  | dvec   -- Array<1,double,false>: what `value()` / `inactive_link()` of an active vector returns
 deriving Repr, DecidableEq
 
 /-- `IsActive` -/
 def Kind.active : Kind → Bool
-  | .avec => true
+  | .avec | .adiag | .asymm => true
   | _ => false
 
 /-- an `Array` (as opposed to a `SpecialMatrix`) -/
 def Kind.isArray : Kind → Bool
-  | .vec | .mat | .avec => true
+  | .vec | .mat | .avec | .dvec => true
   | _ => false
+
+/-- a rank-1 `Array` -/
+def Kind.isVec : Kind → Bool
+  | .vec | .avec | .dvec => true
+  | _ => false
+
+/-- a symmetric `SpecialMatrix` -/
+def Kind.isSymm : Kind → Bool
+  | .symm | .asymm => true
+  | _ => false
+
+/-- number of sub- and super-diagonals of a band `SpecialMatrix` (`LDiags = UDiags`) -/
+def Kind.band : Kind → Option Nat
+  | .tri => some 1
+  | .diag | .adiag => some 0
+  | _ => none
+
+/-- class of the vector a `diag_vector` of this matrix is: `Array<1,Type,IsActive>` -/
+def Kind.diagVec (k : Kind) : Kind := if k.active then .avec else .vec
 
 /-- which allocation `data_` points into -/
 inductive Region
@@ -139,38 +163,42 @@ def iota (n : Nat) (v0 : Int) : List Int := (List.range n).map (fun (i : Nat) =>
     (SpecialMatrix: `Engine::data_size(dimension_, offset_)`) -/
 def extentOf (o : Obj) : Nat :=
   match o.kind with
-  | .vec | .avec => if o.len = 0 then 0 else (o.len - 1) * o.stride + 1
+  | .vec | .avec | .dvec => if o.len = 0 then 0 else (o.len - 1) * o.stride + 1
   | .mat => if o.len = 0 ∨ o.len1 = 0 then 0 else (o.len - 1) * o.stride + (o.len1 - 1) * o.stride1 + 1
-  | .symm => if o.len = 0 then 0 else (o.len - 1) * o.stride + o.len
-  | .tri => if o.len = 0 then 0 else (o.len - 1) * (o.stride + 1) + 1
+  | .symm | .asymm => if o.len = 0 then 0 else (o.len - 1) * o.stride + o.len
+  | .tri | .diag | .adiag => if o.len = 0 then 0 else (o.len - 1) * (o.stride + 1) + 1
 
 /-- memory index (from the start of the allocation) of every element the object addresses, in canonical order:
     vector by index, matrix row by row, symmetric matrix the stored (lower) triangle row by row
-    (`SymmEngine::index`, i ≥ j: `i*offset + j`), tridiagonal matrix the band row by row (`BandEngine::index`) -/
+    (`SymmEngine::index`, i ≥ j: `i*offset + j`), band matrix (tridiagonal, diagonal) the band row by row
+    (`BandEngine::index`: `i*offset + j`) -/
 def cells (o : Obj) : List Nat :=
   match o.kind with
-  | .vec | .avec => (List.range o.len).map (fun k => o.off + k * o.stride)
+  | .vec | .avec | .dvec => (List.range o.len).map (fun k => o.off + k * o.stride)
   | .mat => (List.range o.len).flatMap (fun i => (List.range o.len1).map (fun j => o.off + i * o.stride + j * o.stride1))
-  | .symm => (List.range o.len).flatMap (fun i => (List.range (i + 1)).map (fun j => o.off + i * o.stride + j))
+  | .symm | .asymm => (List.range o.len).flatMap (fun i => (List.range (i + 1)).map (fun j => o.off + i * o.stride + j))
   | .tri => (List.range o.len).flatMap (fun i =>
       ((List.range o.len).filter (fun j => decide (i ≤ j + 1 ∧ j ≤ i + 1))).map (fun j => o.off + i * o.stride + j))
+  | .diag | .adiag => (List.range o.len).map (fun i => o.off + i * (o.stride + 1))
 
 /-- `pack_()` (Array: row-major, `Packet<int>::size == 1` so rows are not padded) / `Engine::pack_offset`:
     the object a fresh allocation gives, `data_ = storage_->data()` -/
 def ownerOf (k : Kind) (σ n0 n1 : Nat) : Obj :=
   match k with
-  | .vec | .avec => { kind := k, region := .sto σ, off := 0, storage := some σ, len := n0, stride := 1 }
+  | .vec | .avec | .dvec => { kind := k, region := .sto σ, off := 0, storage := some σ, len := n0, stride := 1 }
   | .mat => { kind := k, region := .sto σ, off := 0, storage := some σ, len := n0, stride := n1, len1 := n1, stride1 := 1 }
-  | .symm => { kind := k, region := .sto σ, off := 0, storage := some σ, len := n0, stride := n0 }
+  | .symm | .asymm => { kind := k, region := .sto σ, off := 0, storage := some σ, len := n0, stride := n0 }
   | .tri => { kind := k, region := .sto σ, off := 0, storage := some σ, len := n0, stride := 2 }
+  | .diag | .adiag => { kind := k, region := .sto σ, off := 0, storage := some σ, len := n0, stride := 0 }
 
 /-- elements allocated by `resize`: `offset_[0]*dimensions_[0]` (Array, row-major) / `Engine::data_size` -/
 def dataVolume (k : Kind) (n0 n1 : Nat) : Nat :=
   match k with
-  | .vec | .avec => n0
+  | .vec | .avec | .dvec => n0
   | .mat => n0 * n1
-  | .symm => (n0 - 1) * n0 + n0
+  | .symm | .asymm => (n0 - 1) * n0 + n0
   | .tri => (n0 - 1) * 3 + 1
+  | .diag | .adiag => (n0 - 1) * 1 + 1
 
 /-! ## Storage.h -/
 
@@ -315,7 +343,7 @@ def clearAt (s : St) (i : Nat) : Except Err St :=
     (not square → invalid_dimension). -/
 def resizeCheck (k : Kind) (strict : Bool) (n0 n1 : Int) : Except Err (Option (Nat × Nat)) :=
   match k with
-  | .vec | .avec =>
+  | .vec | .avec | .dvec =>
     if n0 < 0 then .error .invalidDimension
     else if n0 = 0 then .ok none
     else .ok (some (n0.toNat, 0))
@@ -326,7 +354,7 @@ def resizeCheck (k : Kind) (strict : Bool) (n0 n1 : Int) : Except Err (Option (N
     else if n1 < 0 then .error .invalidDimension
     else if n1 = 0 then .ok none
     else .ok (some (n0.toNat, n1.toNat))
-  | .symm | .tri =>
+  | .symm | .tri | .diag | .adiag | .asymm =>
     if ¬ strict ∧ n0 ≠ n1 then .error .invalidDimension
     else if n0 < 0 then .error .invalidDimension
     else if n0 = 0 then .ok none
@@ -384,14 +412,16 @@ def newAt (s : St) (k : Kind) (n0 n1 : Int) (v0 : Int) : Except Err St :=
 /-- the default constructor -/
 def newEmptyAt (s : St) (k : Kind) : Except Err St := .ok (push s (blank k))
 
-/-- `Array(Type* data, const ExpressionSize<1>& dims)`: `storage_(0)`, a negative extent throws, `pack_contiguous_()` -/
-def newExternalAt (s : St) (x off : Nat) (n : Int) : Except Err St :=
+/-- `Array(Type* data, const ExpressionSize<1>& dims)`: `storage_(0)`, a negative extent throws, `pack_contiguous_()`;
+    with `dm`: `FixedArray::diag_matrix()`, a DiagMatrix over the FixedArray's own memory (`storage_ = 0`, offset 0) -/
+def newExternalAt (s : St) (x off : Nat) (n : Int) (dm : Bool := false) : Except Err St :=
   match s.exts[x]? with
   | none => .error .badOp
   | some e =>
     if n < 0 then .error .invalidDimension
     else if off + n.toNat ≤ e.vals.length then
-      .ok (push s { kind := .vec, region := .ext x, off := off, storage := none, len := n.toNat, stride := 1 })
+      .ok (push s { kind := if dm then .diag else .vec, region := .ext x, off := off, storage := none, len := n.toNat,
+                    stride := if dm then 0 else 1 })
     else .error .badOp
 
 /-- shared tail of the linking constructors: `if (storage_) storage_->add_link();` -/
@@ -422,6 +452,8 @@ inductive ViewFn
   | subDiag (i0 i1 : Int)                       -- submatrix_on_diagonal(i0, i1)
   | reshape (d0 d1 : Int)                       -- Array<1>::reshape(d0, d1)
   | permute (i0 i1 : Int)                       -- Array<2>::permute(i0, i1)
+  | diagMatrix                                  -- Array<1>::diag_matrix(): a DiagMatrix VIEW of the vector's data
+  | inactive                                    -- inactive_link() / value(): a passive object on the same data
 deriving Repr, DecidableEq
 
 /-- what the member function hands to the view constructor: result kind, `data_ + delta`, extents and strides -/
@@ -445,9 +477,8 @@ def rangeLen (lo hi st : Int) : Int := Int.tdiv (hi + st - lo) st
 /-- the member function up to its call of the view constructor; its own `throw`s are the errors -/
 def evalView (b : Obj) : ViewFn → Except Err ViewRes
   | .slice lo hi st =>
-    match b.kind with
-    | .vec | .avec => .ok (.ctor { kind := b.kind, delta := lo * b.stride, d0 := rangeLen lo hi st, s0 := st * b.stride })
-    | _ => .error .badOp
+    if b.kind.isVec then .ok (.ctor { kind := b.kind, delta := lo * b.stride, d0 := rangeLen lo hi st, s0 := st * b.stride })
+    else .error .badOp
   | .row i lo hi st =>
     match b.kind with
     | .mat => .ok (.ctor { kind := .vec, delta := i * b.stride + lo * b.stride1, d0 := rangeLen lo hi st, s0 := st * b.stride1 })
@@ -469,6 +500,8 @@ def evalView (b : Obj) : ViewFn → Except Err ViewRes
   | .transpose =>                  -- `Array out(*this); return out.in_place_transpose();` (copy constructors)
     match b.kind with
     | .mat => .ok (.ctor { kind := .mat, delta := 0, d0 := b.len1, s0 := b.stride1, d1 := b.len, s1 := b.stride })
+    | .symm | .asymm =>            -- `SpecialMatrix<Type, transpose_engine, IsActive>(data_, storage_, dimension_, offset_)`:
+      .ok (.ctor { kind := b.kind, delta := 0, d0 := b.len, s0 := b.stride })   -- the transpose engine is the same class
     | _ => .error .badOp
   | .diag k =>
     match b.kind with
@@ -479,16 +512,16 @@ def evalView (b : Obj) : ViewFn → Except Err ViewRes
         .ok (.ctor { kind := .vec, delta := b.stride1 * k, d0 := min (b.len : Int) (b.len1 - k), s0 := b.stride + b.stride1 })
       else
         .ok (.ctor { kind := .vec, delta := -(b.stride * k), d0 := min ((b.len : Int) + k) b.len1, s0 := b.stride + b.stride1 })
-    | .symm =>                      -- upper_offset = offdiag*offset, lower_offset = -offdiag*offset, no range test
-      if 0 ≤ k then .ok (.ctor { kind := .vec, delta := k * b.stride, d0 := b.len - k, s0 := b.stride + 1 })
-      else .ok (.ctor { kind := .vec, delta := -(k * b.stride), d0 := b.len + k, s0 := b.stride + 1 })
-    | .tri =>                       -- check_upper_diag / check_lower_diag of BandEngine<ROW_MAJOR,1,1>
+    | .symm | .asymm =>             -- upper_offset = offdiag*offset, lower_offset = -offdiag*offset, no range test
+      if 0 ≤ k then .ok (.ctor { kind := b.kind.diagVec, delta := k * b.stride, d0 := b.len - k, s0 := b.stride + 1 })
+      else .ok (.ctor { kind := b.kind.diagVec, delta := -(k * b.stride), d0 := b.len + k, s0 := b.stride + 1 })
+    | .tri | .diag | .adiag =>      -- check_upper_diag / check_lower_diag of BandEngine<ROW_MAJOR,L,U>
       if 0 ≤ k then
-        if k > 1 then .error .indexOutOfBounds
-        else .ok (.ctor { kind := .vec, delta := k, d0 := b.len - k, s0 := b.stride + 1 })
+        if k > ((b.kind.band.getD 0 : Nat) : Int) then .error .indexOutOfBounds
+        else .ok (.ctor { kind := b.kind.diagVec, delta := k, d0 := b.len - k, s0 := b.stride + 1 })
       else
-        if -k > 1 then .error .indexOutOfBounds
-        else .ok (.ctor { kind := .vec, delta := -(k * b.stride), d0 := b.len + k, s0 := b.stride + 1 })
+        if -k > ((b.kind.band.getD 0 : Nat) : Int) then .error .indexOutOfBounds
+        else .ok (.ctor { kind := b.kind.diagVec, delta := -(k * b.stride), d0 := b.len + k, s0 := b.stride + 1 })
     | _ => .error .badOp
   | .subDiag i0 i1 =>
     match b.kind with
@@ -497,7 +530,7 @@ def evalView (b : Obj) : ViewFn → Except Err ViewRes
       else if i0 < 0 ∨ i0 > i1 ∨ i1 ≥ b.len then .error .indexOutOfBounds
       else .ok (.ctor { kind := .mat, delta := i0 * (b.stride + b.stride1), d0 := i1 - i0 + 1, s0 := b.stride,
                         d1 := i1 - i0 + 1, s1 := b.stride1 })
-    | .symm | .tri =>
+    | .symm | .tri | .diag | .adiag | .asymm =>
       if i0 < 0 ∨ i0 > i1 ∨ i1 ≥ b.len then .error .indexOutOfBounds
       else .ok (.ctor { kind := b.kind, delta := (b.stride + 1) * i0, d0 := i1 - i0 + 1, s0 := b.stride })
     | _ => .error .badOp
@@ -518,6 +551,20 @@ def evalView (b : Obj) : ViewFn → Except Err ViewRes
       else if i0 = 0 then .ok (.ctor { kind := .mat, delta := 0, d0 := b.len, s0 := b.stride, d1 := b.len1, s1 := b.stride1 })
       else .ok (.ctor { kind := .mat, delta := 0, d0 := b.len1, s0 := b.stride1, d1 := b.len, s1 := b.stride })
     | _ => .error .badOp
+  | .diagMatrix =>                 -- `SpecialMatrix<Type,BandEngine<ROW_MAJOR,0,0>,IsActive>(data_, storage_, dimensions_[0], offset_[0]-1)`
+    match b.kind with
+    | .vec => .ok (.ctor { kind := .diag, delta := 0, d0 := b.len, s0 := (b.stride : Int) - 1 })
+    | .avec => .ok (.ctor { kind := .adiag, delta := 0, d0 := b.len, s0 := (b.stride : Int) - 1 })
+    | _ => .error .badOp
+  | .inactive =>
+    match b.kind with
+    -- `Array<Rank,Type,false>(data_, storage_, dimensions_, offset_)`: the view constructor of the PASSIVE class
+    | .vec | .dvec => .ok (.ctor { kind := b.kind, delta := 0, d0 := b.len, s0 := b.stride })
+    | .avec => .ok (.ctor { kind := .dvec, delta := 0, d0 := b.len, s0 := b.stride })
+    | .mat => .ok (.ctor { kind := .mat, delta := 0, d0 := b.len, s0 := b.stride, d1 := b.len1, s1 := b.stride1 })
+    -- SpecialMatrix: members copied by hand + `if (storage_) storage_->add_link()`: exactly one link, no test
+    | .symm | .tri | .diag => .ok (.ctor { kind := b.kind, delta := 0, d0 := b.len, s0 := b.stride })
+    | _ => .error .badOp           -- of an ACTIVE special matrix it does not compile (protected members of another class)
 
 /-- the view constructor `Array(Type* data, Storage<Type>* s, dims, offset)` (SpecialMatrix: `(data, s, dim, offset)`):
     an `Array` rejects a negative extent FIRST, then `storage_->add_link()`; without a Storage an ACTIVE view has no
@@ -574,9 +621,9 @@ def linkAt (s : St) (i j : Nat) : Except Err St :=
 /-- arguments of the `resize` an assignment to an empty target makes: `rhs.get_dimensions(dims)` -/
 def dimsOf (o : Obj) : Int × Int :=
   match o.kind with
-  | .vec | .avec => (o.len, 0)
+  | .vec | .avec | .dvec => (o.len, 0)
   | .mat => (o.len, o.len1)
-  | .symm | .tri => (o.len, o.len)
+  | _ => (o.len, o.len)
 
 /-- `rhs.is_aliased(ptr_begin, ptr_end)` with `data_range`: both objects address the same allocation and their
     address ranges `[data_, data_ + extent - 1]` overlap -/
@@ -735,7 +782,7 @@ inductive Op
   | xend (x : Nat)
   | new (k : Kind) (n0 n1 : Int) (v0 : Int)
   | newEmpty (k : Kind)
-  | newExternal (x off : Nat) (n : Int)
+  | newExternal (x off : Nat) (n : Int) (dm : Bool := false)
   | copyCtor (j : Nat)
   | view (j : Nat) (f : ViewFn)
   | softLink (j : Nat)
@@ -757,7 +804,7 @@ def stepCore (s : St) : Op → Except Err St
   | .xend x => xendAt s x
   | .new k n0 n1 v0 => newAt s k n0 n1 v0
   | .newEmpty k => newEmptyAt s k
-  | .newExternal x off n => newExternalAt s x off n
+  | .newExternal x off n dm => newExternalAt s x off n dm
   | .copyCtor j => copyCtorAt s j
   | .view j f => viewAt s j f
   | .softLink j => softLinkAt s j
